@@ -167,6 +167,32 @@ def subst(text, names, ret='__CPROVER_return_value', root=None):
     return re.sub(r'\$(this|ret|ROOT|\d+)', rep, text)
 
 
+def fields_except(em, text):
+    """$FIELDS_EXCEPT(obj; struct S; a, b, ...) -> obj->f for every member f of the emitted struct S that is not listed:
+    a frame that names the state a property protects instead of enumerating what the pinned code happens to write, so that a
+    new member of the record written by the function does not fail the frame clause"""
+    def rep(m):
+        obj, sn, excl = m.group(1).strip(), m.group(2).strip(), [x.strip() for x in m.group(3).split(',') if x.strip()]
+        d = em.struct_defs.get(sn)
+        if not d or '{' not in d:
+            raise ExtractError('$FIELDS_EXCEPT: struct %s not emitted' % sn)
+        body = d[d.index('{') + 1:d.rindex('}')]
+        names = []
+        for decl in body.split(';'):
+            decl = decl.strip()
+            if not decl:
+                continue
+            mm = re.search(r'\(\*\s*(\w+)\)', decl) or re.search(r'(\w+)\s*(\[[^\]]*\]\s*)*$', decl)
+            if not mm:
+                raise ExtractError('$FIELDS_EXCEPT: cannot read member declaration %r' % decl)
+            names.append(mm.group(1))
+        for x in excl:
+            if x not in names:
+                raise ExtractError('$FIELDS_EXCEPT: protected member %s is not a member of %s (renamed?)' % (x, sn))
+        return ', '.join('%s->%s' % (obj, n) for n in names if n not in excl)
+    return re.sub(r'\$FIELDS_EXCEPT\(([^;()]*);\s*struct\s+(\w+)\s*;([^()]*)\)', rep, text)
+
+
 def find_root(tu, inst_fn):
     """the declaration referenced by the last call/operator/construct node in the snippet body"""
     found = []
@@ -407,7 +433,7 @@ class Unit:
         out.append('\n'.join(protos))
         if it.post_protos:
             out.append(subst(it.post_protos, names, root=rootc))
-        contract = subst(clauses_text(it.contract), names)
+        contract = subst(fields_except(em, clauses_text(it.contract)), names)
         out.append('%s\n%s\n%s' % (em.sig_text[root['id']], contract, self.loops(em, it, root, em.fn_text[root['id']])))
         for fid in order:
             if fid != root['id']:
